@@ -127,18 +127,19 @@ C08 = dict(
         "ranges longer than 96 bits / scans longer than ~100 bits (loop count grows with input)",
         "cores beyond 4 pages; more than two updates per query (the contiguous-length claim is an inductive step from an arbitrary window, so it covers histories of any length inside a 64-block window)",
         "the contiguous-length update written inline in Hypercore::clear (needs the whole Hypercore; see C02 notes)",
+        "DynamicBitfield::set_range/update/index_of/flush with symbolic arguments and FixedBitfield::index_of scans: the harnesses exist (thorough tier) but exhaust 9 GB / 15 min in this sandbox (IntMap + RefCell pages with symbolic page numbers); they are reported inconclusive, never as held",
     ],
     harnesses={
         "c08_fixed_set_get": H("quick", "FixedBitfield set/get incl. changed flag", "i, k, j: any bit index of the page", "none", unwind=6, extra=UF),
         "c08_fixed_set_range": H("quick", "two windowed set_range calls then get(j)", _win + " (twice); value: bool; j: any index of the page", "windows", rules=_BF_RULES, unwind=6, extra=UF),
-        "c08_fixed_index_of": H("quick", "index_of(true/false) near a range, None at the page end", "range: window, 1<=len<=40; positions up to 30 bits before / anywhere inside", "scan distance <= 70 bits", rules=_BF_RULES, timeout=900, unwind=6, extra=UF),
-        "c08_fixed_last_index_of": H("quick", "last_index_of(true/false) near a range, None at index 0", "range: window, 1<=len<=40; positions up to 30 bits after / anywhere inside", "scan distance <= 70 bits", rules=_BF_RULES, timeout=900, unwind=6, extra=UF),
-        "c08_dyn_set_range_edge1": H("quick", "DynamicBitfield set_range (start 32768-40) then get(j)", "length 1..96 symbolic; j < 4 pages; far index >= 4 pages", "start concrete per instance", rules=_BF_RULES, timeout=900, unwind=6, extra=UF),
-        "c08_dyn_set_range_edge2": H("quick", "DynamicBitfield set_range (start 65535) then get(j)", "length 1..96 symbolic; j < 4 pages; far index >= 4 pages", "start concrete per instance", rules=_BF_RULES, timeout=900, unwind=6, extra=UF),
-        "c08_dyn_set_range_pagestart": H("quick", "DynamicBitfield set_range (start 32768) then get(j)", "length 1..96 symbolic; j < 4 pages; far index >= 4 pages", "start concrete per instance", rules=_BF_RULES, timeout=900, unwind=6, extra=UF),
-        "c08_dyn_drop_across_pages": H("quick", "drop of a range straddling the page edge out of a held range", "drop length 1..96 symbolic from 32768-30; j < 4 pages", "starts concrete", rules=_BF_RULES, timeout=900, unwind=6, extra=UF),
-        "c08_dyn_index_of_sparse": H("quick", "index_of/last_index_of(true) across a missing page", "bits at 32761 and 65541 (concrete); query positions symbolic within 20 bits", "20-bit windows", rules=_BF_RULES, timeout=900, unwind=6, extra=UF),
-        "c08_dyn_flush_layout": H("quick", "flush: one StoreInfo per dirty page at 4096*page, LE words", "range from 32768-50, length 1..96 symbolic; info n, bit k symbolic", "start concrete", rules=_BF_RULES, timeout=900, unwind=6, extra=UF),
+        "c08_fixed_index_of": H("thorough", "index_of(true/false) near a range, None at the page end", "range: window, 1<=len<=40; positions up to 30 bits before / anywhere inside", "scan distance <= 70 bits", rules=_BF_RULES, timeout=900, unwind=6, extra=UF),
+        "c08_fixed_last_index_of": H("thorough", "last_index_of(true/false) near a range, None at index 0", "range: window, 1<=len<=40; positions up to 30 bits after / anywhere inside", "scan distance <= 70 bits", rules=_BF_RULES, timeout=900, unwind=6, extra=UF),
+        "c08_dyn_set_range_edge1": H("thorough", "DynamicBitfield set_range (start 32768-40) then get(j)", "length 1..96 symbolic; j < 4 pages; far index >= 4 pages", "start concrete per instance", rules=_BF_RULES, timeout=900, unwind=6, extra=FS9000),
+        "c08_dyn_set_range_edge2": H("thorough", "DynamicBitfield set_range (start 65535) then get(j)", "length 1..96 symbolic; j < 4 pages; far index >= 4 pages", "start concrete per instance", rules=_BF_RULES, timeout=900, unwind=6, extra=UF),
+        "c08_dyn_set_range_pagestart": H("thorough", "DynamicBitfield set_range (start 32768) then get(j)", "length 1..96 symbolic; j < 4 pages; far index >= 4 pages", "start concrete per instance", rules=_BF_RULES, timeout=900, unwind=6, extra=UF),
+        "c08_dyn_drop_across_pages": H("thorough", "drop of a range straddling the page edge out of a held range", "drop length 1..96 symbolic from 32768-30; j < 4 pages", "starts concrete", rules=_BF_RULES, timeout=900, unwind=6, extra=UF),
+        "c08_dyn_index_of_sparse": H("thorough", "index_of/last_index_of(true) across a missing page", "bits at 32761 and 65541 (concrete); query positions symbolic within 20 bits", "20-bit windows", rules=_BF_RULES, timeout=900, unwind=6, extra=UF),
+        "c08_dyn_flush_layout": H("thorough", "flush: one StoreInfo per dirty page at 4096*page, LE words", "range from 32768-50, length 1..96 symbolic; info n, bit k symbolic", "start concrete", rules=_BF_RULES, timeout=900, unwind=6, extra=UF),
         "c08_dyn_open_one_page_first": H("quick", "open: has(j) == bit j of the file; 4096-byte file, byte 0 symbolic", "x: the byte value; j: any index < 4 pages", "file zero elsewhere; byte offset concrete per instance", rules=_BF_RULES, timeout=900, unwind=5, extra=FS9000),
         "c08_dyn_open_one_page_last": H("thorough", "open: has(j) == bit j of the file; 4096-byte file, byte 4095 symbolic", "x: the byte value; j: any index < 4 pages", "file zero elsewhere; byte offset concrete per instance", rules=_BF_RULES, timeout=900, unwind=5, extra=FS9000),
         "c08_dyn_open_two_pages_p0": H("thorough", "open: has(j) == bit j of the file; 8192-byte file (core > 32768 blocks), byte 1027 symbolic", "x: the byte value; j: any index < 4 pages", "file zero elsewhere; byte offset concrete per instance", rules=_BF_RULES, timeout=900, unwind=5, extra=FS9000),
